@@ -487,8 +487,11 @@ def local_case(args):
             step('scandir-subdirectory')
             return os.scandir(p)
 
-    saved = (L.Path, L.NamedTemporaryFile, L.os, FSM.os)
-    L.Path, L.NamedTemporaryFile, L.os, FSM.os = KPath, ktemp, KOs(), KOsSub()
+    has_ntf = hasattr(L, 'NamedTemporaryFile')
+    saved = (L.Path, getattr(L, 'NamedTemporaryFile', None), L.os, FSM.os)
+    L.Path, L.os, FSM.os = KPath, KOs(), KOsSub()
+    if has_ntf:
+        L.NamedTemporaryFile = ktemp
     res = exc = src = None
     model = dict(state)
     try:
@@ -502,7 +505,9 @@ def local_case(args):
         except Exception as e:
             exc = e
     finally:
-        L.Path, L.NamedTemporaryFile, L.os, FSM.os = saved
+        L.Path, L.os, FSM.os = saved[0], saved[2], saved[3]
+        if has_ntf:
+            L.NamedTemporaryFile = saved[1]
     truth = {}
     leftovers = []
     for d, _dirs, files in os.walk(root):
